@@ -30,7 +30,7 @@ package undo
 
 // Reverse turns the recording order around, in place (so that every alias of b.Logs sees it).
 //@ func (*BranchUndoLog).Reverse
-//@   prop C01
+//@   prop C01 C10
 //@   requires b != nil
 //@   let n := len(b.Logs)
 //@   modifies elems(b.Logs)
